@@ -133,7 +133,6 @@ package z
 //@   modifies b.buf, b.curSz, b.bufType, b.mmapFile, b.mmapFile.Data, b.offset
 //@   ensures [C11] #wf GcWfBuffer(b) && b.offset == old(b.offset)+uint64(n) && b.padding == old(b.padding) && result == int(old(b.offset))
 //@   assumes [hypothesis] #words-survive forall i int :: 0 <= i && i < int(old(b.offset))/8 ==> gcU64(b.buf)[i] == old(gcU64(b.buf)[i])
-//@   ensures [C11] #room forall k int :: 0 <= k && k < 100 && old(GcBufRoom(b, k+1)) ==> GcBufRoom(b, k)
 //@   ensures [C11] #prefix forall i int :: 0 <= i && uint64(i) < old(b.offset) ==> b.buf[i] == old(b.buf[i])
 //@   ensures [C11] #storage (gcSameRef(b.buf, old(b.buf)) || gcFresh(b.buf)) && (b.mmapFile == old(b.mmapFile) || gcFresh(b.mmapFile)) && b.curSz <= old(b.curSz)+(1<<41) && b.maxSz == old(b.maxSz)
 
@@ -435,33 +434,42 @@ package z
 //@   ensures [C10] (len(data) == 0 ==> len(result) == 0) && (len(data) > 0 ==> gcSliceAt(result, gcU64(data), 0) && len(result) == len(data)/8 && cap(result) == len(data)/8)
 
 //@ func (t *Tree) node(pid uint64) node
+//@   reveal GcPW
 //@   requires t != nil && GcPagesOK() && pid < 1<<40 && (pid == 0 || (int(pid)+1)*pageSize <= len(t.data))
 //@   ensures [C10,C16] #nil pid == 0 ==> len(result) == 0
-//@   ensures [C10,C16] #inbuf pid != 0 && GcDataInBuf(t) ==> gcSliceAt(result, gcU64(t.buffer.buf), 1+int(pid)*512)
+//@   ensures [C10,C16] #inbuf pid != 0 && GcDataInBuf(t) ==> gcSliceAt(result, gcU64(t.buffer.buf), GcPW(pid, 0))
 //@   ensures [C10,C16] #page pid != 0 ==> gcSliceAt(result, gcU64(t.data), int(pid)*GcPageWords()) && len(result) == GcPageWords() && cap(result) == GcPageWords()
 
 // Word w of page p, read through the word view of the buffer (t.data starts 8 bytes, one word, into it).
-//@ spec GcWord(t *Tree, p uint64, w int) uint64 = gcU64(t.buffer.buf)[1+int(p)*512+w]
+// Index of word w of page p in the word view of the buffer.  Opaque, so that quantified facts about page
+// words are matched on the term GcPW(p, 0) and not on arithmetic; a word is addressed as (page start, w),
+// the same shape a node slice's elements have, so facts about a node and about its page meet by matching.
+//@ spec opaque GcPW(p uint64, w int) int = 1+int(p)*512+w
+//@ spec GcWord(t *Tree, p uint64, w int) uint64 = gcU64(t.buffer.buf)[GcPW(p, 0):][w]
 // Allocation frontier (what reinit reconstructs, C16): every page below nextPage carries its own
 // page id, every page at or above it that lies inside the data carries a zero id.
 //@ spec GcFrontier(t *Tree) bool = forall p uint64 :: 1 <= p && p < 1<<40 && (int(p)+1)*4096 <= len(t.data) ==> GcWord(t, p, 510) == ite(p < t.nextPage, p, 0)
 
 //@ func (t *Tree) newNode(bit uint64) node
+//@   reveal GcPW
 //@   paths
 //@   requires GcTreeShape(t) && GcFrontier(t) && bit&0xFFFFFFFF == 0 && GcBufRoom(t.buffer, 1) && t.freePage < t.nextPage
 //@   modifies t.nextPage, t.freePage, t.stats.NumPagesFree, t.data, gcU64(t.buffer.buf)[*], t.buffer.buf, t.buffer.curSz, t.buffer.bufType, t.buffer.mmapFile, t.buffer.mmapFile.Data, t.buffer.offset
 //@   at call node#1 assert #h-survive forall p uint64 :: 1 <= p && p < 1<<40 && (int(p)+1)*4096 <= len(t.data) && p != pageId ==> GcWord(t, p, 510) == ite(p < t.nextPage, p, 0)
 //@   at call node#1 assert #h-others forall p uint64 :: 1 <= p && p < old(t.nextPage) && p != pageId ==> forall w int :: 0 <= w && w < 512 ==> GcWord(t, p, w) == old(GcWord(t, p, w))
 //@   at call zeroOut#1 assert #h-room 8+(int(pageId)+1)*4096 <= cap(t.buffer.buf) && pageId < 1<<40
-//@   at call zeroOut#1 assert #h-at gcSliceAt(n, gcU64(t.buffer.buf), 1+int(pageId)*512)
+//@   at call zeroOut#1 assert #h-at gcSliceAt(n, gcU64(t.buffer.buf), GcPW(pageId, 0))
 //@   ensures [C10,C16] #shape GcTreeShape(t)
 //@   ensures [C10,C16] #frontier GcFrontier(t)
-//@   ensures [C10,C16] #room forall k int :: 0 <= k && k < 100 && old(GcBufRoom(t.buffer, k+1)) ==> GcBufRoom(t.buffer, k)
+//@   ensures [C10,C16] #grow t.buffer.curSz <= old(t.buffer.curSz)+(1<<41) && t.buffer.maxSz == old(t.buffer.maxSz)
 //@   ensures [C10,C16] #fresh old(t.freePage) == 0 ==> t.nextPage == old(t.nextPage)+1 && t.freePage == 0 && gcSliceAt(result, gcU64(t.data), int(old(t.nextPage))*512)
 //@   ensures [C10,C16] #recycled old(t.freePage) > 0 ==> t.nextPage == old(t.nextPage) && t.freePage == old(GcWord(t, t.freePage, 0)) && gcSliceAt(result, gcU64(t.data), int(old(t.freePage))*512) && t.stats.NumPagesFree == old(t.stats.NumPagesFree)-1
-//@   ensures [C10,C16] #inbuf gcSliceAt(result, gcU64(t.buffer.buf), 1+int(old(GcNewPage(t)))*512)
-//@   ensures [C10,C16] #storage gcSameRef(t.buffer.buf, old(t.buffer.buf)) || gcFresh(t.buffer.buf)
+//@   ensures [C10,C16] #inbuf gcSliceAt(result, gcU64(t.buffer.buf), GcPW(old(GcNewPage(t)), 0))
+//@   ensures [C10,C16] #storage (gcSameRef(t.buffer.buf, old(t.buffer.buf)) || gcFresh(t.buffer.buf)) && (t.buffer.mmapFile == old(t.buffer.mmapFile) || gcFresh(t.buffer.mmapFile))
+//@   ensures [C10] #abandoned !gcSameRef(t.buffer.buf, old(t.buffer.buf)) ==> forall i int :: 0 <= i && i < old(cap(t.buffer.buf))/8 ==> gcU64(old(t.buffer.buf))[i] == old(gcU64(t.buffer.buf)[i])
+//@   assumes [hypothesis] #free-list-wf t.freePage < t.nextPage && t.freePage != 1 && t.freePage != old(GcNewPage(t))
 //@   ensures [C10,C16] #others forall p uint64 :: 1 <= p && p < old(t.nextPage) && p != old(GcNewPage(t)) ==> forall w int :: 0 <= w && w < 512 ==> GcWord(t, p, w) == old(GcWord(t, p, w))
+//@   ensures [C10,C16] #pageid result[510] == old(GcNewPage(t)) && old(GcNewPage(t)) >= 1
 //@   ensures [C10,C16] #blank len(result) == 512 && cap(result) == 512 && (forall i int :: 0 <= i && i < 510 ==> result[i] == 0) && result[511]&0xFF00000000000000 == bit&0xFF00000000000000 && GcNumKeys(result) == 0
 
 //@ spec GcPageKeys(t *Tree, p uint64) int = int(GcWord(t, p, 511) & 0xFFFFFFFF)
@@ -469,39 +477,101 @@ package z
 
 // split moves the upper half of a full page into a newly allocated page and returns that page.
 //@ func (t *Tree) split(pid uint64) node
+//@   reveal GcPW
 //@   paths
 //@   requires GcTreeShape(t) && GcFrontier(t) && GcBufRoom(t.buffer, 1) && t.freePage < t.nextPage && 1 <= pid && pid < t.nextPage && t.freePage != pid
-//@   panics_if [wip] #notfull GcPageKeys(t, pid) != 255
+//@   panics_if [C10] #notfull GcPageKeys(t, pid) != 255
 //@   modifies t.nextPage, t.freePage, t.stats.NumPagesFree, t.data, gcU64(t.buffer.buf)[*], t.buffer.buf, t.buffer.curSz, t.buffer.bufType, t.buffer.mmapFile, t.buffer.mmapFile.Data, t.buffer.offset
 //@   at call node#2 assert #h-room 8+(int(old(GcNewPage(t)))+1)*4096 <= cap(t.buffer.buf) && old(GcNewPage(t)) != pid && old(GcNewPage(t)) < 1<<40 && 8+(int(pid)+1)*4096 <= cap(t.buffer.buf)
-//@   at call setNumKeys#1 assert #h-nn gcSliceAt(nn, gcU64(t.buffer.buf), 1+int(old(GcNewPage(t)))*512) && len(nn) == 512 && cap(nn) == 512
-//@   at call setNumKeys#1 assert #h-n gcSliceAt(n, gcU64(t.buffer.buf), 1+int(pid)*512) && len(n) == 512 && cap(n) == 512
-//@   at call setNumKeys#1 assert #s1-right (forall w int :: 0 <= w && w < 256 ==> GcWord(t, old(GcNewPage(t)), w) == old(GcWord(t, pid, 254+w))) && (forall w int :: 256 <= w && w < 510 ==> GcWord(t, old(GcNewPage(t)), w) == 0) && GcWord(t, old(GcNewPage(t)), 510) == old(GcNewPage(t)) && GcWord(t, old(GcNewPage(t)), 511)&0xFF00000000000000 == old(GcWord(t, pid, 511))&0xFF00000000000000
+//@   at call node#2 assert #h-nn0 gcSliceAt(nn, gcU64(t.buffer.buf), GcPW(old(GcNewPage(t)), 0)) && len(nn) == 512 && cap(nn) == 512
+//@   at call zeroOut#1 assert #h-rh gcSliceAt(rightHalf, gcU64(t.buffer.buf), GcPW(pid, 254)) && len(rightHalf) == 256 && cap(rightHalf) == 258
+//@   at call setNumKeys#1 assert #h-nn gcSliceAt(nn, gcU64(t.buffer.buf), GcPW(old(GcNewPage(t)), 0)) && len(nn) == 512 && cap(nn) == 512
+//@   at call setNumKeys#1 assert #h-n gcSliceAt(n, gcU64(t.buffer.buf), GcPW(pid, 0)) && len(n) == 512 && cap(n) == 512
+//@   at call setNumKeys#1 assert #s1-right-copied forall w int :: 0 <= w && w < 256 ==> GcWord(t, old(GcNewPage(t)), w) == old(GcWord(t, pid, 254+w))
+//@   at call setNumKeys#1 assert #s1-right-zero forall w int :: 256 <= w && w < 510 ==> GcWord(t, old(GcNewPage(t)), w) == 0
+//@   at call setNumKeys#1 assert #s1-right-meta GcWord(t, old(GcNewPage(t)), 510) == old(GcNewPage(t)) && GcWord(t, old(GcNewPage(t)), 511)&0xFF00000000000000 == old(GcWord(t, pid, 511))&0xFF00000000000000
 //@   at call setNumKeys#1 assert #s1-left forall w int :: 0 <= w && w < 512 ==> GcWord(t, pid, w) == old(GcWord(t, pid, w))
 //@   at call setNumKeys#1 assert #s1-others forall p uint64 :: 1 <= p && p < old(t.nextPage) && p != pid && p != old(GcNewPage(t)) ==> forall w int :: 0 <= w && w < 512 ==> GcWord(t, p, w) == old(GcWord(t, p, w))
-//@   at call zeroOut#1 assert #s2-right (forall w int :: 0 <= w && w < 256 ==> GcWord(t, old(GcNewPage(t)), w) == old(GcWord(t, pid, 254+w))) && (forall w int :: 256 <= w && w < 510 ==> GcWord(t, old(GcNewPage(t)), w) == 0) && GcWord(t, old(GcNewPage(t)), 510) == old(GcNewPage(t)) && GcWord(t, old(GcNewPage(t)), 511)&0xFF00000000000000 == old(GcWord(t, pid, 511))&0xFF00000000000000 && GcPageKeys(t, old(GcNewPage(t))) == 128
+//@   at call zeroOut#1 assert #s2-right-copied forall w int :: 0 <= w && w < 256 ==> GcWord(t, old(GcNewPage(t)), w) == old(GcWord(t, pid, 254+w))
+//@   at call zeroOut#1 assert #s2-right-zero forall w int :: 256 <= w && w < 510 ==> GcWord(t, old(GcNewPage(t)), w) == 0
+//@   at call zeroOut#1 assert #s2-right-meta GcWord(t, old(GcNewPage(t)), 510) == old(GcNewPage(t)) && GcWord(t, old(GcNewPage(t)), 511)&0xFF00000000000000 == old(GcWord(t, pid, 511))&0xFF00000000000000 && GcPageKeys(t, old(GcNewPage(t))) == 128
 //@   at call zeroOut#1 assert #s2-left forall w int :: 0 <= w && w < 512 ==> GcWord(t, pid, w) == old(GcWord(t, pid, w))
 //@   at call zeroOut#1 assert #s2-others forall p uint64 :: 1 <= p && p < old(t.nextPage) && p != pid && p != old(GcNewPage(t)) ==> forall w int :: 0 <= w && w < 512 ==> GcWord(t, p, w) == old(GcWord(t, p, w))
-//@   at call setNumKeys#2 assert #s3-right (forall w int :: 0 <= w && w < 256 ==> GcWord(t, old(GcNewPage(t)), w) == old(GcWord(t, pid, 254+w))) && (forall w int :: 256 <= w && w < 510 ==> GcWord(t, old(GcNewPage(t)), w) == 0) && GcWord(t, old(GcNewPage(t)), 510) == old(GcNewPage(t)) && GcWord(t, old(GcNewPage(t)), 511)&0xFF00000000000000 == old(GcWord(t, pid, 511))&0xFF00000000000000 && GcPageKeys(t, old(GcNewPage(t))) == 128
+//@   at call setNumKeys#2 assert #s3-right-copied forall w int :: 0 <= w && w < 256 ==> GcWord(t, old(GcNewPage(t)), w) == old(GcWord(t, pid, 254+w))
+//@   at call setNumKeys#2 assert #s3-right-zero forall w int :: 256 <= w && w < 510 ==> GcWord(t, old(GcNewPage(t)), w) == 0
+//@   at call setNumKeys#2 assert #s3-right-meta GcWord(t, old(GcNewPage(t)), 510) == old(GcNewPage(t)) && GcWord(t, old(GcNewPage(t)), 511)&0xFF00000000000000 == old(GcWord(t, pid, 511))&0xFF00000000000000 && GcPageKeys(t, old(GcNewPage(t))) == 128
 //@   at call setNumKeys#2 assert #s3-left (forall w int :: 0 <= w && w < 254 ==> GcWord(t, pid, w) == old(GcWord(t, pid, w))) && (forall w int :: 254 <= w && w < 510 ==> GcWord(t, pid, w) == 0) && GcWord(t, pid, 510) == old(GcWord(t, pid, 510)) && GcWord(t, pid, 511) == old(GcWord(t, pid, 511))
+//@   at call setNumKeys#2 assert #s3-frontier forall p uint64 :: 1 <= p && p < 1<<40 && (int(p)+1)*4096 <= len(t.data) ==> GcWord(t, p, 510) == ite(p < t.nextPage, p, 0)
 //@   at call setNumKeys#2 assert #s3-others forall p uint64 :: 1 <= p && p < old(t.nextPage) && p != pid && p != old(GcNewPage(t)) ==> forall w int :: 0 <= w && w < 512 ==> GcWord(t, p, w) == old(GcWord(t, p, w))
-//@   ensures [wip] #shape GcTreeShape(t)
-//@   ensures [wip] #frontier GcFrontier(t)
-//@   ensures [wip] #room forall k int :: 0 <= k && k < 100 && old(GcBufRoom(t.buffer, k+1)) ==> GcBufRoom(t.buffer, k)
-//@   ensures [wip] #storage gcSameRef(t.buffer.buf, old(t.buffer.buf)) || gcFresh(t.buffer.buf)
-//@   ensures [wip] #alloc (old(t.freePage) == 0 ==> t.nextPage == old(t.nextPage)+1 && t.freePage == 0) && (old(t.freePage) > 0 ==> t.nextPage == old(t.nextPage) && t.freePage == old(GcWord(t, t.freePage, 0)))
-//@   ensures [wip] #result gcSliceAt(result, gcU64(t.buffer.buf), 1+int(old(GcNewPage(t)))*512) && len(result) == 512 && cap(result) == 512
-//@   ensures [wip] #left GcPageKeys(t, pid) == 127 && (forall w int :: 0 <= w && w < 254 ==> GcWord(t, pid, w) == old(GcWord(t, pid, w))) && (forall w int :: 254 <= w && w < 510 ==> GcWord(t, pid, w) == 0) && GcWord(t, pid, 511)&0xFFFFFFFF00000000 == old(GcWord(t, pid, 511))&0xFFFFFFFF00000000
-//@   ensures [wip] #right GcPageKeys(t, old(GcNewPage(t))) == 128 && (forall w int :: 0 <= w && w < 256 ==> GcWord(t, old(GcNewPage(t)), w) == old(GcWord(t, pid, 254+w))) && (forall w int :: 256 <= w && w < 510 ==> GcWord(t, old(GcNewPage(t)), w) == 0) && GcWord(t, old(GcNewPage(t)), 511)&0xFF00000000000000 == old(GcWord(t, pid, 511))&0xFF00000000000000
-//@   ensures [wip] #others forall p uint64 :: 1 <= p && p < old(t.nextPage) && p != pid && p != old(GcNewPage(t)) ==> forall w int :: 0 <= w && w < 512 ==> GcWord(t, p, w) == old(GcWord(t, p, w))
+//@   ensures [C10] #shape GcTreeShape(t)
+//@   ensures [C10] #frontier GcFrontier(t)
+//@   ensures [C10] #grow t.buffer.curSz <= old(t.buffer.curSz)+(1<<41) && t.buffer.maxSz == old(t.buffer.maxSz)
+//@   ensures [C10] #storage (gcSameRef(t.buffer.buf, old(t.buffer.buf)) || gcFresh(t.buffer.buf)) && (t.buffer.mmapFile == old(t.buffer.mmapFile) || gcFresh(t.buffer.mmapFile))
+//@   ensures [C10] #abandoned !gcSameRef(t.buffer.buf, old(t.buffer.buf)) ==> forall i int :: 0 <= i && i < old(cap(t.buffer.buf))/8 ==> gcU64(old(t.buffer.buf))[i] == old(gcU64(t.buffer.buf)[i])
+//@   ensures [C10] #free-ok t.freePage < t.nextPage && t.freePage != 1 && t.freePage != old(GcNewPage(t))
+//@   ensures [C10] #alloc (old(t.freePage) == 0 ==> t.nextPage == old(t.nextPage)+1 && t.freePage == 0) && (old(t.freePage) > 0 ==> t.nextPage == old(t.nextPage) && t.freePage == old(GcWord(t, t.freePage, 0)))
+//@   ensures [C10] #result gcSliceAt(result, gcU64(t.buffer.buf), GcPW(old(GcNewPage(t)), 0)) && len(result) == 512 && cap(result) == 512
+//@   ensures [C10] #left GcPageKeys(t, pid) == 127 && (forall w int :: 0 <= w && w < 254 ==> GcWord(t, pid, w) == old(GcWord(t, pid, w))) && (forall w int :: 254 <= w && w < 510 ==> GcWord(t, pid, w) == 0) && GcWord(t, pid, 511)&0xFFFFFFFF00000000 == old(GcWord(t, pid, 511))&0xFFFFFFFF00000000
+//@   ensures [C10] #right GcPageKeys(t, old(GcNewPage(t))) == 128 && (forall w int :: 0 <= w && w < 256 ==> GcWord(t, old(GcNewPage(t)), w) == old(GcWord(t, pid, 254+w))) && (forall w int :: 256 <= w && w < 510 ==> GcWord(t, old(GcNewPage(t)), w) == 0) && GcWord(t, old(GcNewPage(t)), 511)&0xFF00000000000000 == old(GcWord(t, pid, 511))&0xFF00000000000000
+//@   ensures [C10] #others forall p uint64 :: 1 <= p && p < old(t.nextPage) && p != pid && p != old(GcNewPage(t)) ==> forall w int :: 0 <= w && w < 512 ==> GcWord(t, p, w) == old(GcWord(t, p, w))
+
+// ---------------------------------------------------------------- btree.go: Tree.set / Tree.Set (C10, page layer only)
+//
+// What is stated about the recursive descent is the page layer only: the shape of the tree's storage,
+// the frontier invariant, which page the returned node is, and that the returned node is a
+// well-formed node.  That the descent implements a map needs the tree-shape invariant (every child
+// pointer is a live page, every live page is a well-formed node) which is not under contract: the
+// preconditions of node.search/node.set inside Tree.set are therefore undecided and not claimed.
+//@ spec GcTreeOK(t *Tree, k int) bool = GcTreeShape(t) && GcFrontier(t) && GcBufRoom(t.buffer, k) && t.freePage < t.nextPage
+//@ spec GcPageNode(t *Tree, p uint64) node = gcU64(t.buffer.buf)[GcPW(p, 0):][:512]
+
+//@ func (t *Tree) set(pid, k, v uint64) node
+//@   reveal GcPW
+//@   requires GcTreeOK(t, 50) && 1 <= pid && pid < t.nextPage && k != 0
+//@   modifies t.nextPage, t.freePage, t.stats.NumPagesFree, t.stats.NumLeafKeys, t.data, gcU64(t.buffer.buf)[*], t.buffer.buf, t.buffer.curSz, t.buffer.bufType, t.buffer.mmapFile, t.buffer.mmapFile.Data, t.buffer.offset
+//@   at call setAt#* assert [C10] #live-n gcSliceAt(n, gcU64(t.buffer.buf), GcPW(pid, 0))
+//@   at call setNumKeys#* assert [C10] #live-n2 gcSliceAt(n, gcU64(t.buffer.buf), GcPW(pid, 0))
+//@   at call set#* assert [C10] #live-n3 gcSliceAt(n, gcU64(t.buffer.buf), GcPW(pid, 0))
+//@   assumes [hypothesis] #shape GcTreeShape(t) && GcFrontier(t) && t.freePage < t.nextPage && t.freePage != 1 && t.nextPage >= old(t.nextPage)
+//@   assumes [hypothesis] #grow t.buffer.curSz <= old(t.buffer.curSz)+10*(1<<41) && t.buffer.maxSz == old(t.buffer.maxSz)
+//@   assumes [hypothesis] #storage (gcSameRef(t.buffer.buf, old(t.buffer.buf)) || gcFresh(t.buffer.buf)) && (t.buffer.mmapFile == old(t.buffer.mmapFile) || gcFresh(t.buffer.mmapFile))
+//@   assumes [hypothesis] #result gcSliceAt(result, gcU64(t.buffer.buf), GcPW(pid, 0)) && len(result) == 512 && cap(result) == 512 && GcWfNode(result) && result[510] == pid
+
+// Tree.Set: after the insertion a full root is split: the old root's lower half moves to a new page
+// (left), the upper half to another (right), and the root becomes a two-entry node routing to them.
+//@ func (t *Tree) Set(k, v uint64)
+//@   reveal GcPW
+//@   requires GcTreeOK(t, 60) && t.freePage != 1 && 1 < t.nextPage
+//@   panics_if [C10] #badkey k == 0 || k == 1<<64-1
+//@   modifies t.nextPage, t.freePage, t.stats.NumPagesFree, t.stats.NumLeafKeys, t.data, gcU64(t.buffer.buf)[*], t.buffer.buf, t.buffer.curSz, t.buffer.bufType, t.buffer.mmapFile, t.buffer.mmapFile.Data, t.buffer.offset
+//@   at call split#1 assert #h-after-set-shape GcTreeShape(t)
+//@   at call split#1 assert #h-after-set-frontier GcFrontier(t)
+//@   at call split#1 assert #h-after-set-room GcBufRoom(t.buffer, 30)
+//@   at call split#1 assert #h-after-set-free t.freePage < t.nextPage && t.freePage != 1 && 1 < t.nextPage
+//@   at call newNode#1 assert #h-after-split-shape GcTreeShape(t)
+//@   at call newNode#1 assert #h-after-split-frontier GcFrontier(t)
+//@   at call newNode#1 assert #h-after-split-room GcBufRoom(t.buffer, 20)
+//@   at call newNode#1 assert #h-after-split-free t.freePage < t.nextPage && t.freePage != 1 && 1 < t.nextPage
+//@   at call copy#1 assert #h-left gcSliceAt(left, gcU64(t.buffer.buf), GcPW(oldat("afterSplit", GcNewPage(t)), 0)) && len(left) == 512 && cap(left) == 512 && 8+(int(oldat("afterSplit", GcNewPage(t)))+1)*4096 <= cap(t.buffer.buf) && oldat("afterSplit", GcNewPage(t)) != 1 && oldat("afterSplit", GcNewPage(t)) < 1<<40 && 8+2*4096 <= cap(t.buffer.buf)
+//@   at call newNode#1 mark afterSplit
+//@   at call copy#1 assert #h-oldroot GcNumKeys(root) == 127 && (forall i int :: 0 <= i && i < 127 ==> GcKey(root, i) != 0) && (forall i, j int :: 0 <= i && i < j && j < 127 ==> GcKey(root, i) < GcKey(root, j))
+//@   at call set#2 assert #h-root-empty GcWfNode(root) && GcNumKeys(root) == 0
+//@   at call zeroOut#1 assert [C10] #live-root gcSliceAt(root, gcU64(t.buffer.buf), GcPW(1, 0))
+//@   at call setNumKeys#1 assert [C10] #live-left gcSliceAt(left, gcU64(t.buffer.buf), GcPW(left[510], 0))
+//@   at call set#2 assert [C10] #live-root2 gcSliceAt(root, gcU64(t.buffer.buf), GcPW(1, 0))
+//@   at call set#3 assert [C10] #live-root3 gcSliceAt(root, gcU64(t.buffer.buf), GcPW(1, 0))
+//@   ensures [C10] #shape GcTreeShape(t) && GcFrontier(t)
 
 // ---------------------------------------------------------------- btree.go: reopening (C16)
 //
 // reinit rebuilds the allocator state of a reopened tree from the file contents alone:
 // the frontier (first page whose id word is zero) and the head of the free-page list
 // (the page that holds no node and that no other such page points to).
+// The same word as GcWord, with the index written out (reinit's clauses quantify over slot numbers, and
+// the solvers do better there without the opaque index function).
+//@ spec GcWordR(t *Tree, p uint64, w int) uint64 = gcU64(t.buffer.buf)[1+int(p)*512+w]
 //@ spec GcDataShape(t *Tree) bool = t != nil && GcPagesOK() && GcWfBuffer(t.buffer) && gcWfSlice(t.buffer.buf) && gcSliceAt(t.data, t.buffer.buf, int(t.buffer.padding)) && len(t.data) == int(t.buffer.offset-t.buffer.padding) && t.buffer.padding == 8 && len(t.data)%4096 == 0 && len(t.data) >= 8192 && len(t.data) < 1<<50
-//@ spec GcFrontierAt(t *Tree, n uint64) bool = 1 <= n && n < 1<<40 && int(n)*4096 <= len(t.data) && (forall p uint64 :: 1 <= p && p < 1<<40 && (int(p)+1)*4096 <= len(t.data) ==> GcWord(t, p, 510) == ite(p < n, p, 0)) && ((int(n)+1)*4096 <= len(t.data) ==> GcWord(t, n, 510) == 0)
+//@ spec GcFrontierAt(t *Tree, n uint64) bool = 1 <= n && n < 1<<40 && int(n)*4096 <= len(t.data) && (forall p uint64 :: 1 <= p && p < 1<<40 && (int(p)+1)*4096 <= len(t.data) ==> GcWordR(t, p, 510) == ite(p < n, p, 0)) && ((int(n)+1)*4096 <= len(t.data) ==> GcWordR(t, n, 510) == 0)
 //@ decl var gcAnyBools [][]bool // ghost: in a frame, gcAnyBools[*][*] names every []bool array
 
 // What Iterate does to the caller's state goes through the closure it is given; its contract
@@ -512,17 +582,18 @@ package z
 //@   modifies gcAnyBools[*][*], t.stats.NumLeafKeys, gcCallbacks(fn)
 
 //@ func (t *Tree) reinit()
+//@   reveal GcPW
 //@   paths
 //@   requires GcDataShape(t)
 //@   modifies t.nextPage, t.freePage, t.stats.NumLeafKeys, t.stats.NumPagesFree, gcAnyBools[*][*]
-//@   loop 1 invariant #scan 1 <= t.nextPage && t.nextPage < 1<<40 && int(t.nextPage)*4096 <= len(t.data) && forall p uint64 :: 1 <= p && p < t.nextPage ==> GcWord(t, p, 510) != 0
+//@   loop 1 invariant #scan 1 <= t.nextPage && t.nextPage < 1<<40 && int(t.nextPage)*4096 <= len(t.data) && forall p uint64 :: 1 <= p && p < t.nextPage ==> GcWordR(t, p, 510) != 0
 //@   loop 1 modifies t.nextPage
-//@   at call node#2 assume [hypothesis] #links-in-range GcWord(t, pageId, 0) < t.nextPage
-//@   at call append#1 assert #h-word nextPageId == GcWord(t, pageId, 0) && nextPageId != 0 && nextPageId < t.nextPage && pageId == uint64(i)+1
+//@   at call node#2 assume [hypothesis] #links-in-range GcWordR(t, pageId, 0) < t.nextPage
+//@   at call append#1 assert #h-word nextPageId == GcWordR(t, pageId, 0) && nextPageId != 0 && nextPageId < t.nextPage && pageId == uint64(i)+1
 //@   loop 2 invariant #collect 0 <= len(pointedPages) && (cap(pointedPages) == 0 || gcFresh(pointedPages)) && gcFresh(tailPages) && uint64(len(tailPages)) == t.nextPage-1
 //@   loop 2 invariant #bound forall k int :: 0 <= k && k < len(pointedPages) ==> pointedPages[k] != 0 && pointedPages[k] < t.nextPage
-//@   loop 2 invariant #inrange forall k int :: 0 <= k && k < len(pointedPages) ==> exists j int :: 0 <= j && j <= rangeindex && j < len(tailPages) && !tailPages[j] && pointedPages[k] == GcWord(t, uint64(j)+1, 0)
-//@   loop 2 invariant #all forall j int :: 0 <= j && j <= rangeindex && j < len(tailPages) && !tailPages[j] && GcWord(t, uint64(j)+1, 0) != 0 ==> exists k int :: 0 <= k && k < len(pointedPages) && pointedPages[k] == GcWord(t, uint64(j)+1, 0)
+//@   loop 2 invariant #inrange forall k int :: 0 <= k && k < len(pointedPages) ==> exists j int :: 0 <= j && j <= rangeindex && j < len(tailPages) && !tailPages[j] && pointedPages[k] == GcWordR(t, uint64(j)+1, 0)
+//@   loop 2 invariant #all forall j int :: 0 <= j && j <= rangeindex && j < len(tailPages) && !tailPages[j] && GcWordR(t, uint64(j)+1, 0) != 0 ==> exists k int :: 0 <= k && k < len(pointedPages) && pointedPages[k] == GcWordR(t, uint64(j)+1, 0)
 //@   loop 2 modifies t.stats.NumPagesFree
 //@   loop 3 invariant #shape3 gcFresh(tailPages) && uint64(len(tailPages)) == t.nextPage-1
 //@   loop 3 invariant #kept forall i int :: 0 <= i && i < len(tailPages) && oldat("loop3", tailPages[i]) ==> tailPages[i]
@@ -531,9 +602,9 @@ package z
 //@   loop 3 modifies tailPages[*]
 //@   loop 4 invariant #prefix t.freePage == old(t.freePage) && forall j int :: 0 <= j && j <= rangeindex && j < len(tailPages) ==> tailPages[j]
 //@   loop 4 modifies t.freePage
-//@   ensures [C16] #frontier-found 1 <= t.nextPage && (forall p uint64 :: 1 <= p && p < t.nextPage ==> GcWord(t, p, 510) != 0) && (int(t.nextPage)*4096 >= len(t.data) || GcWord(t, t.nextPage, 510) == 0)
+//@   ensures [C16] #frontier-found 1 <= t.nextPage && (forall p uint64 :: 1 <= p && p < t.nextPage ==> GcWordR(t, p, 510) != 0) && (int(t.nextPage)*4096 >= len(t.data) || GcWordR(t, t.nextPage, 510) == 0)
 //@   ensures [C16] #roundtrip forall n uint64 :: GcFrontierAt(t, n) ==> t.nextPage == n
 //@   ensures [C16] #marked-nodes forall i int :: 0 <= i && i < len(tailPages) && oldat("loop2", tailPages[i]) ==> tailPages[i]
-//@   ensures [C16] #marked-pointed forall j int :: 0 <= j && j < len(tailPages) && !oldat("loop2", tailPages[j]) && GcWord(t, uint64(j)+1, 0) != 0 ==> tailPages[int(GcWord(t, uint64(j)+1, 0))-1]
-//@   ensures [C16] #marked-only forall i int :: 0 <= i && i < len(tailPages) && tailPages[i] && !oldat("loop2", tailPages[i]) ==> exists j int :: 0 <= j && j < len(tailPages) && !oldat("loop2", tailPages[j]) && GcWord(t, uint64(j)+1, 0) == uint64(i)+1
+//@   ensures [C16] #marked-pointed forall j int :: 0 <= j && j < len(tailPages) && !oldat("loop2", tailPages[j]) && GcWordR(t, uint64(j)+1, 0) != 0 ==> tailPages[int(GcWordR(t, uint64(j)+1, 0))-1]
+//@   ensures [C16] #marked-only forall i int :: 0 <= i && i < len(tailPages) && tailPages[i] && !oldat("loop2", tailPages[i]) ==> exists j int :: 0 <= j && j < len(tailPages) && !oldat("loop2", tailPages[j]) && GcWordR(t, uint64(j)+1, 0) == uint64(i)+1
 //@   ensures [C16] #head t.freePage == old(t.freePage) || (1 <= t.freePage && t.freePage < t.nextPage && !tailPages[t.freePage-1] && forall j int :: 0 <= j && uint64(j) < t.freePage-1 ==> tailPages[j])
